@@ -6,13 +6,17 @@
 #include <signal.h>
 #include <string.h>
 #include <sys/mman.h>
+#include <sys/syscall.h>
 #include <sys/wait.h>
 #include <time.h>
 #include <unistd.h>
 
 #include <cstdio>
 #include <cstdlib>
+#include <algorithm>
 #include <vector>
+
+#include "common.h"
 
 namespace sim {
 
@@ -34,6 +38,7 @@ struct Shm {
 
 Shm *g_shm = nullptr;
 int g_self = -1;
+int g_hash_fd = -1;
 
 struct Worker {
   pid_t pid = -1;
@@ -64,11 +69,18 @@ void WriteAll(int fd, const std::string &s) {
 
 double WallNow() {
   struct timespec ts;
-  clock_gettime(CLOCK_MONOTONIC, &ts);
+  syscall(SYS_clock_gettime, CLOCK_MONOTONIC, &ts);
   return ts.tv_sec + ts.tv_nsec * 1e-9;
 }
 
 bool PoolShouldStop() { return g_shm && g_shm->stop; }
+
+void PoolLogRunHash(uint64_t idx, uint64_t hash) {
+  if (g_hash_fd < 0) return;
+  uint64_t rec[2] = {idx, hash};
+  ssize_t r = write(g_hash_fd, rec, sizeof(rec));
+  (void)r;
+}
 
 void PoolSetTag(uint32_t tag) {
   if (g_shm && g_self >= 0) g_shm->w[g_self].tag = tag;
@@ -117,6 +129,12 @@ PoolResult RunPool(const PoolOptions &opt, const PoolCallbacks &cb) {
       if (dn >= 0) {
         dup2(dn, 1);
         close(dn);
+      }
+      if (opt.hashlog) {
+        char hn[512];
+        snprintf(hn, sizeof(hn), "%s/runhash.%d.bin",
+                 opt.log_dir.empty() ? "/tmp" : opt.log_dir.c_str(), w);
+        g_hash_fd = open(hn, O_WRONLY | O_CREAT | O_APPEND, 0644);
       }
       if (cb.init) cb.init(w);
       std::string out;
@@ -258,5 +276,94 @@ PoolResult RunPool(const PoolOptions &opt, const PoolCallbacks &cb) {
   g_shm = nullptr;
   return res;
 }
+
+std::string ClassifyDeath(const PoolDeath &d, std::string *sig,
+                          std::string *excerpt) {
+  std::string log;
+  ReadFile(d.log_path, &log);
+  if (log.size() > 200000) log = log.substr(log.size() - 200000);
+  *excerpt = log.substr(0, 6000);
+  auto first_draco_frame = [&](size_t from) -> std::string {
+    // Frames look like "    #3 0x... in draco::Foo::Bar(...) /path:line:col".
+    size_t p = from;
+    while ((p = log.find(" in ", p)) != std::string::npos) {
+      size_t e = log.find('\n', p);
+      std::string fr = log.substr(p + 4, e == std::string::npos ? std::string::npos
+                                                                 : e - p - 4);
+      if (fr.find("draco::") != std::string::npos) {
+        size_t par = fr.find('(');
+        size_t sp = fr.find(" /");
+        size_t cut = std::min(par, sp);
+        return fr.substr(0, cut);
+      }
+      p += 4;
+    }
+    return "";
+  };
+  std::string cls;
+  size_t p;
+  if ((p = log.find("ERROR: AddressSanitizer: ")) != std::string::npos) {
+    size_t s = p + strlen("ERROR: AddressSanitizer: ");
+    size_t e = log.find_first_of(" \n", s);
+    cls = "asan:" + log.substr(s, e - s);
+    *sig = cls + "@" + first_draco_frame(p);
+  } else if ((p = log.find("runtime error: ")) != std::string::npos) {
+    size_t s = p + strlen("runtime error: ");
+    size_t e = log.find('\n', s);
+    std::string msg = log.substr(s, e - s);
+    // Strip concrete numbers so that the signature is stable.
+    std::string norm;
+    for (char c : msg) norm += isdigit(static_cast<unsigned char>(c)) ? '#' : c;
+    // Source position precedes "runtime error".
+    size_t ls = log.rfind('\n', p);
+    std::string pos = log.substr(ls == std::string::npos ? 0 : ls + 1,
+                                 p - (ls == std::string::npos ? 0 : ls + 1));
+    size_t sl = pos.rfind('/');
+    if (sl != std::string::npos) pos = pos.substr(sl + 1);
+    std::string fr = first_draco_frame(p);
+    cls = "ubsan";
+    *sig = "ubsan:" + norm.substr(0, 80) + "@" + (fr.empty() ? pos : fr);
+  } else if ((p = log.find("Assertion `")) != std::string::npos) {
+    size_t ls = log.rfind('\n', p);
+    size_t e = log.find('\n', p);
+    std::string line = log.substr(ls == std::string::npos ? 0 : ls + 1,
+                                  e - (ls == std::string::npos ? 0 : ls + 1));
+    // "<prog>: <file>:<line>: <function>: Assertion `expr' failed."
+    size_t a = line.find(": ");
+    std::string rest = a == std::string::npos ? line : line.substr(a + 2);
+    // Drop the line number (unstable across edits).
+    std::string norm;
+    size_t c1 = rest.find(':');
+    size_t c2 = rest.find(':', c1 + 1);
+    if (c1 != std::string::npos && c2 != std::string::npos) {
+      std::string file = rest.substr(0, c1);
+      size_t sl = file.rfind('/');
+      if (sl != std::string::npos) file = file.substr(sl + 1);
+      norm = file + rest.substr(c2);
+    } else {
+      norm = rest;
+    }
+    cls = "assert";
+    *sig = "assert:" + norm;
+  } else if (log.find("TOLERATED_TERMINATE") != std::string::npos) {
+    cls = "tolerated_terminate";
+    *sig = cls;
+  } else if (log.find("terminate called") != std::string::npos ||
+             log.find("SIM_TERMINATE") != std::string::npos) {
+    cls = "terminate";
+    *sig = "terminate@" + first_draco_frame(0);
+  } else if (d.wallclock) {
+    cls = "wallclock";
+    *sig = cls;
+  } else if (d.signal) {
+    cls = "signal:" + std::to_string(d.signal);
+    *sig = cls;
+  } else {
+    cls = "exit";
+    *sig = "exit:" + std::to_string(d.exit_code);
+  }
+  return cls;
+}
+
 
 }  // namespace sim
